@@ -1,4 +1,4 @@
 From Coq Require Import Extraction ExtrOcamlBasic.
-From SV Require Import Model.PeakHelpers Model.Peaks Model.Merging.
+From SV Require Import Model.PeakHelpers Model.Peaks Model.Merging Model.PeakProps.
 Extraction Language OCaml.
-Extraction "model.ml" sma find_peaks replace_merged merge_peaks Qred.
+Extraction "model.ml" sma find_peaks replace_merged merge_peaks index_of_fraction Qred.
